@@ -21,6 +21,9 @@ USES_AUTHORITY = frozenset(uses_netloc)
 
 SplitURLType = tuple[str, str, str, str, str]
 
+# IPvFuture = "v" 1*HEXDIG "." 1*( unreserved / sub-delims / ":" )
+IPVFUTURE = re.compile(r"\Av[a-fA-F0-9]+\.[a-zA-Z0-9\-._~!$&'()*+,;=:]+\Z")
+
 
 def split_url(url: str) -> SplitURLType:
     """Split URL into parts."""
@@ -70,7 +73,7 @@ def split_url(url: str) -> SplitURLType:
             # https://www.rfc-editor.org/rfc/rfc3986#page-49
             # https://url.spec.whatwg.org/
             if bracketed_host[:1] == "v":
-                if not re.match(r"\Av[a-fA-F0-9]+\..+\Z", bracketed_host):
+                if not IPVFUTURE.match(bracketed_host):
                     raise ValueError("IPvFuture address is invalid")
             elif ":" not in bracketed_host:
                 raise ValueError("An IPv4 address cannot be in brackets")
